@@ -20,7 +20,7 @@ def check(run):
     # Run mode: RPM monitor and control loop as the two concurrent goroutines of the real controller.Run
     rtraces = run.drive('TestDriveC10Run', 16, lambda i: dict(VERIF_SEED=run.seed * 1000 + 300 + i, VERIF_N=run.pick(3, 80)), 'c10run',
                         timeout=3000)
-    rc = vlib.cfg(invariants=['Report', 'C02_NeverBelowMinRun'], properties=['C10_BoundedResponseRun', 'C10_ErrorOnlyAtMaxRun', 'C10_MonitorAlive'],
+    rc = vlib.cfg(invariants=['Report', 'C02_NeverBelowMinRun'], properties=['C10_BoundedResponseRun', 'C10_ErrorOnlyAtMaxRun', 'C10_MonitorAlive', 'C10_LadderCompletes'],
                   post='TraceAccepted')
     run.validate('Monitor_Stall', rc, rtraces, 'monstall')
     run.cov['run_mode_scenarios'] = ctlfam.count_events(rtraces, lambda ln: '"ev":"Begin"' in ln)
